@@ -1,3 +1,10 @@
-/-! # C09 — (stub: property theorems go here; see docs/BUILDING.md) -/
+import PtVerif.Model.Lazy
+import PtVerif.Generated.LazyConfig
+/-! # C09 — lazy loading is invisible (work in progress) -/
 namespace PtVerif.C09
+open PtLazy
+
+/-- the generated configuration registers seven groups -/
+theorem seven_groups : PtGen.lazyConfig.groups.length = 7 := by decide
+
 end PtVerif.C09
